@@ -9,11 +9,16 @@ PROP = {'assumptions': ['json_injective side conditions: scheme field names pair
                  'fixed by the equal left-hand-side / parameter type and the JSON does not record it)',
                  'alias / layout theorems are about the lexer primitives (lex_enum! tables as modelled in '
                  'Model/Parse.lean, skip_space, the combining-operator lookahead) for every continuation of the '
-                 'input; invariance of the AST of a WHOLE filter under alias/layout changes is observed by the '
-                 'correspondence stream, not proved at character level',
+                 'input; invariance of the AST / JSON / hash of a WHOLE filter under alias and layout changes of '
+                 'its LOGICAL layer (and/or/xor/not spellings, spaces, parentheses kept) is proved at character '
+                 'level (Props/C07Render.lean: parse_render_logical, alias_layout_invariance) over ABSTRACT atoms '
+                 'assumed to satisfy GoodAtom (comparisonL reads exactly the atom text to its Bool node before '
+                 'every continuation the atom stops at; proved for bare boolean fields of a concrete scheme); '
+                 'aliases and layout INSIDE comparisons (==/eq, spaces around comparison operators) are covered '
+                 'by the table lemmas and observed by the correspondence stream',
                  'the lex_enum! tables themselves are pinned to the source by the C01 extractor, not here; C07 '
                  'extracts SPACE_CHARS and the serializer op strings of field_expr.rs'],
- 'modules': ['WfModel.Props.C07'],
+ 'modules': ['WfModel.Props.C07', 'WfModel.Props.C07Render'],
  'rule': 'cases = well-typed filters executed through the real parser and serializer; non-trivial = filter with >= 2 '
          'operator occurrences of which >= 1 uses a non-default alias or layout; distinct by (AST JSON, spelling '
          'vector)',
@@ -42,9 +47,16 @@ TEXT = {'design_ref': 'DESIGN.md section 3, C07',
           'compression / ::ffff:a.b.c.d is injective on 128-bit values, via parse-back), json_injective_on / _noV6, '
           'json_eq_iff_norm_eq (exact '
           'characterisation), op_name_injective, node_heads_distinct, hash_congr / hash_of_norm_eq, '
-          'serializer_ops_pinned / cmp_op_document_shape against the extracted serializer strings.',
+          'serializer_ops_pinned / cmp_op_document_shape against the extracted serializer strings. '
+          'Character level (Props/C07Render.lean): parse_render_logical (S) - every rendering (any alias per '
+          'operator occurrence, any layout; a space mandatory only between an atom and the next combining '
+          'operator) of every logical skeleton over GoodAtom atoms is read by LogicalExpr::lex_with to the '
+          'declarative meaning canon(sk); alias_layout_invariance(_level, same_outcome) - two renderings of the '
+          'same skeleton give the same AST, JSON document, JSON text and FNV hash; parse_render_filter; '
+          'precedence_whole_filter; concrete instance with three spellings of one filter.',
  'note': 'Trusted: Lean kernel; axioms propext/Classical.choice/Quot.sound; extractor; harness. Not proved: '
          'J.render injectivity (documents are compared as trees; text equality of equal trees is '
-         'by construction); character-level alias/layout invariance of whole filters (stream-level only). '
+         'by construction); alias/layout invariance INSIDE atoms (comparison operators, literals) at '
+         'character level (table lemmas + stream; the logical layer is proved in Props/C07Render.lean). '
          'ComparisonOpExpr::ContainsOneOf has a serializer but no parser path and no model constructor.',
  'technique': 'Lean 4 proof over executable model + differential correspondence with the real engine'}
